@@ -74,6 +74,9 @@ def become_users():
 def run_transfer(root, pre, argv_or_cmd, chdir, become, vh_exit, rash_env_args, post=True, missing=False, ignore=False):
     shutil.rmtree(root, ignore_errors=True)
     os.makedirs(os.path.join(root, "wd sub"))
+    for extra in ("wd sub ", " wd sub", "wd sub\n"):       # directories whose names differ from it by a blank or a line feed only
+        os.makedirs(os.path.join(root, extra))
+        os.chmod(os.path.join(root, extra), 0o777)
     os.chmod(root, 0o777)
     open(os.path.join(root, "log"), "w").close()
     os.chmod(os.path.join(root, "log"), 0o666)
@@ -122,7 +125,7 @@ def c14(run, replay=None):
     nb = nobody()
     cases = []
     for args in ARGS:
-        for chdir in (None, "wd sub"):
+        for chdir in (None, "wd sub", "wd sub ", " wd sub", "wd sub\n"):
             for become in ([False] + [u[0] for u in become_users()] if nb and os.geteuid() == 0 else [False]):
                 for pre in (0, 2):
                     cases.append(dict(args=args, chdir=chdir, become=become, pre=pre, vh_exit=rng.choice([0, 1, 7, 42, 255]), ignore=(rng.random() < 0.3)))
@@ -340,6 +343,25 @@ def c15(run, replay=None):
     want = "%d\n\n%d\n\n\n" % (nb[0], os.getuid())
     if o["rc"] != 0 or not o["stdout"].startswith(want) or ("<<u>> é✓ 12 true 0 true %d" % os.getuid()) not in o["stdout"]:
         run.violation("become credentials / registered result: %r" % o, dict(script=script, observed=o))
+    # strings with control characters and unusual code points (NEL, DEL, C1 controls, U+2028, BOM, NUL-free C0) in the
+    # store and in a registered result: they cross the process boundary unchanged
+    odd = ["a\u0085b", "d\u007fe", "c1\u0080\u009fz", "ls\u2028ps\u2029", "\ufeffbom", "t\tb\rc", "e\u001b[0m", "k: v # {x}", "q\"uo'te\\", "\u00e9" * 600]
+    sc = "#!/usr/bin/env rash\n"
+    for i, v in enumerate(odd):
+        # registered outputs are not re-read as YAML (set_vars would be: K7), so the values are in the store as they are
+        sc += "- command:\n    argv: [printenv, VPO%d]\n  register: o%d\n" % (i, i)
+    sc += "- command:\n    argv: [printenv, VPO0]\n%s  register: r\n"
+    sc += "- debug:\n    msg: \"<<odd>> {{ [%s, r.output] | tojson }}\"\n" % ", ".join("o%d.output" % i for i in range(len(odd)))
+    envv = {"VPO%d" % i: v for i, v in enumerate(odd)}
+    po = E.run_impls([dict(files={"main.rh": dict(raw=sc % "")}, env=envv, world_writable=True)], timeout=15)[0]
+    bo = E.run_impls([dict(files={"main.rh": dict(raw=sc % "  become: true\n  become_user: nobody\n")}, env=envv, world_writable=True)], timeout=15)[0]
+    lp = [l for l in po["stdout"].split("\n") if l.startswith("<<odd>>")]
+    lb = [l for l in bo["stdout"].split("\n") if l.startswith("<<odd>>")]
+    if po["rc"] != 0 or not lp:
+        run.violation("harness: the control-character script does not run without become: %r" % po, dict(script=sc % ""), no_input=True)
+    elif bo["rc"] != po["rc"] or lb != lp:
+        run.violation("become changes strings with control characters: without become %r, with become rc=%r %r %s" % (lp, bo["rc"], lb, bo["stderr"][-200:]),
+                      dict(script=sc % "  become: true\n  become_user: nobody\n", without_become=po, with_become=bo))
     # every way of naming the user: uid AND primary gid of the passwd entry, inside; the caller's own, after
     # the same user id written as a YAML NUMBER (K47: it used to be ignored and the task ran as root)
     for bu, uid, gid in become_users():
